@@ -51,6 +51,10 @@ def getV5 (m : Mem K) (n : String) (ix : List Int) : V5 K := ⟨getF m n ix 0, g
 def getV6 (m : Mem K) (n : String) (ix : List Int) : V6 K := ⟨getF m n ix 0, getF m n ix 1, getF m n ix 2, getF m n ix 3, getF m n ix 4, getF m n ix 5⟩
 def getV10 (m : Mem K) (n : String) (ix : List Int) : V10 K :=
   ⟨getF m n ix 0, getF m n ix 1, getF m n ix 2, getF m n ix 3, getF m n ix 4, getF m n ix 5, getF m n ix 6, getF m n ix 7, getF m n ix 8, getF m n ix 9⟩
+def getV8 (m : Mem K) (n : String) (ix : List Int) : V8 K :=
+  ⟨getF m n ix 0, getF m n ix 1, getF m n ix 2, getF m n ix 3, getF m n ix 4, getF m n ix 5, getF m n ix 6, getF m n ix 7⟩
+def getV11 (m : Mem K) (n : String) (ix : List Int) : V11 K :=
+  ⟨getF m n ix 0, getF m n ix 1, getF m n ix 2, getF m n ix 3, getF m n ix 4, getF m n ix 5, getF m n ix 6, getF m n ix 7, getF m n ix 8, getF m n ix 9, getF m n ix 10⟩
 def getM33 (m : Mem K) (n : String) (ix : List Int) : M33 K :=
   ⟨getF m n ix 0, getF m n ix 1, getF m n ix 2, getF m n ix 3, getF m n ix 4, getF m n ix 5, getF m n ix 6, getF m n ix 7, getF m n ix 8⟩
 def getM22 (m : Mem K) (n : String) (ix : List Int) : M22 K := ⟨getF m n ix 0, getF m n ix 1, getF m n ix 2, getF m n ix 3⟩
@@ -81,7 +85,7 @@ def encWVal {K : Type} [Codec K] : WVal K → String
   | .iv xs => "iv:" ++ ",".intercalate (xs.map toString)
 
 def encKind : WKind → String
-  | .set => "set" | .aadd => "aadd" | .asub => "asub" | .amin => "amin" | .amax => "amax" | .aor => "aor" | .aand => "aand"
+  | .set => "set" | .aadd => "aadd" | .asub => "asub" | .amin => "amin" | .amax => "amax" | .aor => "aor" | .aand => "aand" | .alloc => "alloc"
 
 def encWrites {K : Type} [Codec K] (ws : List (Write K)) : String :=
   ";".intercalate (ws.map (fun w => w.arr ++ "|" ++ ",".intercalate (w.idx.map toString) ++ "|" ++ encKind w.kind ++ "|" ++ encWVal w.val))
